@@ -99,12 +99,14 @@ Proof. reflexivity. Qed.
 
 (** ** the group teardown preserves the invariant *)
 Theorem group_inv s k o pri cyc pops visits :
-  Inv s k -> disc (heap_of s) ->
+  Inv s k -> (forall x, reach (heap_of s) o x -> disc_at (heap_of s) x) ->
   orphaned_cycle (heap_of s) o = Ok (Some cyc, pops, visits) ->
   let cyc' := order_cycle pri cyc in
   let keys := map fst cyc' in
   exists h2 h3 inners,
     bust_all (heap_of s) keys cyc' = Ok h2 /\ gather h2 keys [] = Ok (h3, inners) /\
+    group_heap (heap_of s) h3 keys /\
+    (forall y, In y keys <-> reach (heap_of s) o y) /\
     Inv (add_ev (set_heap (add_ev s (EvTrace o pops visits)) h3) (EvGroup keys))
         (FInners inners :: FFinishGroup keys :: k).
 Proof.
@@ -129,7 +131,8 @@ Proof.
   { intros y c Hin. assert (Hy : In y keys) by (apply in_map_iff; exists (y, c); auto).
     destruct (Hmemb y Hy) as (b & m & p & t & Hb & Hl & Hs & Hm & Hle & Hv & Hlk & Hf).
     exists b, t, p, m. rewrite (Hcnt' y c Hin). repeat split; auto. }
-  exists h2, h3, inners. split; [exact Hbust|]. split; [exact Hgather|].
+  exists h2, h3, inners. split; [exact Hbust|]. split; [exact Hgather|]. split; [exact Hgh|].
+  split; [intros y; rewrite <- HkeysR; apply HR|].
   destruct Hgh as [Hlen3 Hnth3].
   assert (Hmemb_dec : forall y, memb y keys = true <-> In y keys) by (intros y; apply memb_In).
   (* the key inequality: the group's counters are covered by the handles inside its values *)
@@ -141,7 +144,8 @@ Proof.
     rewrite Hsum in Hle. rewrite (sumN_nodup_same _ R keys HndR Hnd' HkeysR) in Hle.
     eapply N.le_trans; [exact Hle|]. apply sumN_le_pointwise. intros x Hx.
     destruct (Hmemb x Hx) as (bx & mx & px & tx & Hbx & _ & _ & _ & _ & Hvx & _).
-    rewrite Hbx, (w_box_value _ _ _ Hvx), (cntF_lget _ _ _ Hwf). unfold w_payload. apply (Hd x bx px Hbx Hvx). }
+    rewrite Hbx, (w_box_value _ _ _ Hvx), (cntF_lget _ _ _ Hwf). unfold w_payload.
+    apply (Hd x (proj1 (HR x) (proj2 (HkeysR x) Hx)) bx px Hbx Hvx). }
   (* hence nobody else owns a handle to a member *)
   assert (Hnone : forall y, In y keys ->
             total (w_reg (sw_strong y)) (regs s) = 0 /\ total (w_box (sw_strong y)) h3 = 0 /\
